@@ -23,12 +23,14 @@ RULE = (
     "adaptor, Imputer (skip-inverse), OptionalPassthrough on/off, affine recording double) in "
     "front of a recording forecaster; multiplexer selecting each member; stacking over member "
     "subsets with a recording meta-regressor; depth-2 nestings. For each program x horizon "
-    "(non-empty subsets of {1,2,3}) every history of the menu {fit->predict, fit->update(T/F)->"
-    "predict, fit->update->update->predict (T/F), fit->predict->update->predict} is run on the "
+    "(non-empty subsets of {1,2,3}; thorough: of {1,2,3,4}) every history of the menu {fit->predict, "
+    "fit->update(T/F)->predict, fit->update->update->predict (TT/FF/TF), fit->predict->update->predict}"
+    " (thorough: EVERY word over {predict, update(T), update(F)} of length <=4 that ends in predict, "
+    "40 histories) is run on the "
     "real composite and on the hand-composed parts; forecasts, cutoffs and the complete call "
     "log of the inner recording estimators are compared. Independence: for 18 programs x 3 "
     "histories x 2 horizons a second composite constructed from the same member objects is "
-    "fitted/updated on other data in between; the first one's forecasts must not move. states = (program, history prefix) "
+    "fitted/updated on other data in between (+ ensembles whose aggregate is chosen by set_params, directly or on a clone, instead of the constructor); the first one's forecasts must not move. states = (program, history prefix) "
     "pairs reached; transitions = calls executed on the real composite."
 )
 ASSUMPTIONS = [
@@ -46,9 +48,13 @@ MEMBERS = [["rec", "A", "last", 0.0], ["rec", "B", "mean", 10.0], ["rec", "C", "
 
 
 def gen_cases(tier, seed):
-    fhs = list(subsets([1, 2, 3]))
-    hists = HISTS if tier != "quick" else HISTS[:6]
-    qfh = fhs if tier != "quick" else [[1], [2, 3], [1, 2, 3]]
+    # quick: the 7-history menu x every non-empty subset of {1,2,3}; thorough: EVERY history
+    # fit -> w with w in {p,U,u}^{<=4} ending in p (40 histories, <= 3 updates) x every non-empty
+    # subset of {1,2,3,4}
+    fhs = list(subsets([1, 2, 3] if tier == "quick" else [1, 2, 3, 4]))
+    hists = HISTS if tier == "quick" else \
+        ["f" + "".join(w) + "p" for k in range(4) for w in itertools.product("pUu", repeat=k)]
+    qfh = fhs
     for sub in subsets(range(3)):
         for agg in ("mean", "median", "min", "max", "online"):
             for h in hists:
@@ -58,7 +64,7 @@ def gen_cases(tier, seed):
                                                 itertools.product(range(len(TMENU)), repeat=2)]
     for seq in seqs:
         for h in hists:
-            for fh in (qfh if len(seq) == 1 else ([[1, 2]] if tier == "quick" else qfh)):
+            for fh in (qfh if len(seq) == 1 else ([[1], [2, 3], [1, 2, 3]] if tier == "quick" else qfh)):
                 yield dict(kind="ttf", seq=seq, hist=h, fh=fh, fam=seed % 2)
     for sel in range(3):
         for h in hists:
@@ -80,6 +86,13 @@ def gen_cases(tier, seed):
             for h in ("fp", "fUp", "fup"):
                 yield dict(kind="ens", members=sub, agg="mean", hist=h, fh=fh, fam=seed % 2,
                            absfh=True)
+    # the aggregate chosen through set_params (directly / on a clone) instead of the constructor
+    for sub in ([0, 1], [0, 1, 2]):
+        for agg in ("mean", "median", "min", "max"):
+            for h in ("fp", "fUp", "fup"):
+                for via in ("set", "clone"):
+                    yield dict(kind="ens", members=sub, agg=agg, hist=h, fh=[1, 3], fam=seed % 2,
+                               viaset=via)
     # members fitted as tasks of a parallel call (n_jobs=2 under the harness' own joblib backend,
     # which collects all tasks of a call before running them in submission order)
     for sub in ([0, 1], [0, 1, 2]):
@@ -361,7 +374,17 @@ def run_case(case):
     # real composite (recording doubles tagged ...#r) and manual composition (...#m)
     doubles.reset_log()
     doubles.reset_tokens()
-    real = _build_real(_retag(spec, "#r"))
+    if case.get("viaset"):
+        # the aggregate is chosen AFTER construction (set_params, as a tuner would do)
+        other = {"mean": "max", "median": "min", "min": "median", "max": "mean"}[spec[1]]
+        real = _build_real(_retag([spec[0], other] + list(spec[2:]), "#r"))
+        if case["viaset"] == "clone":
+            from sklearn.base import clone
+
+            real = clone(real)
+        real.set_params(aggfunc=spec[1])
+    else:
+        real = _build_real(_retag(spec, "#r"))
     if case.get("par"):
         from .. import sched
 
